@@ -210,3 +210,20 @@ type Controller interface {
 
 // Factory builds a controller over a world.
 type Factory func(w *World, cfg *CtlConfig) (Controller, error)
+
+// EventSink lets the harness deliver watch events straight to the controller's
+// handlers (workers disabled; the recording queue shows what was enqueued).
+// Objects are *unstructured.Unstructured or cache.DeletedFinalStateUnknown.
+type EventSink interface {
+	ParentAdd(obj any)
+	ParentUpdate(old, cur any)
+	ParentDelete(obj any)
+	ChildAdd(obj any)
+	ChildUpdate(old, cur any)
+	ChildDelete(obj any)
+	RelatedAdd(obj any)
+	RelatedUpdate(old, cur any)
+	RelatedDelete(obj any)
+	// ParseKey maps a queue key back to (namespace, name) of the parent it denotes.
+	ParseKey(key string) (ns, name string, err error)
+}
